@@ -8,7 +8,7 @@ from mc.core import Result, SubCheck
 
 PROPERTY = "C20"
 ASSUMPTIONS = [
-    "NTU x capacity-ratio lattice (8 x 5 quick, 29 x 17 thorough), all 8 arrangements, both label forms (enum member / its text), passes {None,1,2,3,4}",
+    "NTU x capacity-ratio lattice (8 x 7 quick, 29 x 22 thorough; the capacity ratios include 1e-3 (and 1e-6 in the thorough tier) and values within 1e-3 and 1e-6 of 1, next to the zero-ratio and balanced special cases; smaller positive ratios are outside the alphabet: the relations contain (1 - exp(-c x))/c, whose rounding error grows like 1e-16/c, so the bounds are compared with 1e-9 + 1e-15/c), all 8 arrangements, both label forms (enum member / its text), passes {None,1,2,3,4}",
     "round trip in NTU space is compared with a tolerance scaled by the local conditioning (1/slope of effectiveness), in effectiveness space absolutely (3e-5: the library's secant inversion stops at 1e-5)",
     "points whose effectiveness rounds to exactly 1.0 in floating point are not invertible and are skipped in the round trip (counted)",
 ]
@@ -17,9 +17,9 @@ ARR = ["CF", "PF", "CrFUU", "CrFMM", "CrFMUmax", "CrFMUmin", "ShellTube", "CondE
 
 def grids(tier):
     if tier == "quick":
-        return [0.1, 0.25, 0.5, 1, 2, 3, 5, 10], [0, 0.25, 0.5, 0.75, 1]
+        return [0.1, 0.25, 0.5, 1, 2, 3, 5, 10], [0, 1e-3, 0.25, 0.5, 0.75, 0.9995, 1]
     ntu = sorted({round(x, 6) for x in [0.05, 0.1, 0.15, 0.2, 0.25, 0.3, 0.4, 0.5, 0.6, 0.75, 0.9, 1, 1.25, 1.5, 1.75, 2, 2.5, 3, 3.5, 4, 4.5, 5, 6, 7, 8, 9, 10, 0.01, 0.02]})
-    c = [i / 16 for i in range(17)]
+    c = sorted([i / 16 for i in range(17)] + [1e-6, 1e-3, 0.999, 0.9995, 0.999999])
     return ntu, c
 
 
@@ -116,7 +116,7 @@ def eff_run(case, res: Result):
         if c == 0 and abs(e - (1 - math.exp(-N))) > 1e-9:
             res.violate("zero_capacity_ratio_limit", case, dict(detail, expected=1 - math.exp(-N)), f"zero_capacity_ratio_limit:{tag}")
         ecf = HX_Eff(HX.CF.value, N, c)
-        if e > ecf + 1e-9:
+        if e > ecf + 1e-9 + (1e-15 / c if c > 0 else 0.0):
             sig = f"exceeds_counterflow:{a}:passes{p}"
             if a == "CrFUU" and c > 0 and is_pinned(a, N, c, p, e):
                 sig = "exceeds_counterflow:CrFUU:shipped-truncated-series"
@@ -266,14 +266,14 @@ SUBCHECKS = {
         describe="HX_Eff / HX_NTU over arrangements x label forms x passes x capacity ratio x NTU lattice",
         rule="case = (arrangement, label form, passes, c) swept over the whole NTU lattice (adjacent-NTU monotonicity); non-trivial = at least one invertible point 0<eff<1",
         cases=_eff_cases, run=eff_run,
-        bound=lambda t: "8 arrangements x 2 forms x 5 pass settings x 5 c x 8 NTU" if t == "quick" else "8 x 2 x 5 x 17 c x 29 NTU",
+        bound=lambda t: "8 arrangements x 2 forms x 5 pass settings x 7 c x 8 NTU" if t == "quick" else "8 x 2 x 5 x 22 c x 29 NTU",
     ),
     "effgrid": SubCheck(
         name="effgrid",
         describe="HX_NTU then HX_Eff on a fixed effectiveness grid, all arrangements walked by ONE worker for each (label form, passes, c), in both orders",
         rule="case = (form, passes, c, order); non-trivial = at least one reachable effectiveness; transitions = arrangements x grid",
         cases=grid_cases, run=grid_run,
-        bound=lambda t: "2 forms x 5 pass settings x 5 c x 2 orders x 8 arrangements x 11 effectiveness values" if t == "quick" else "... x 17 c ...",
+        bound=lambda t: "2 forms x 5 pass settings x 7 c x 2 orders x 8 arrangements x 11 effectiveness values" if t == "quick" else "... x 22 c ...",
     ),
     "lmtd": SubCheck(
         name="lmtd",
